@@ -208,6 +208,17 @@ func (e *Exec) branch(c *Term) bool {
 		return true
 	}
 	// both feasible (or unknown: never prune)
+	if e.run != nil && e.cur != nil && len(e.cur.frames) > 0 {
+		fr := e.cur.top()
+		pos := e.L.prog.Fset.Position(fr.block.Instrs[minInt(fr.pc, len(fr.block.Instrs)-1)].Pos())
+		site := fmt.Sprintf("%s %s:%d", fr.fn.Name(), shortFile(pos.Filename), pos.Line)
+		e.run.mu.Lock()
+		if e.run.ForkSites == nil {
+			e.run.ForkSites = map[string]int{}
+		}
+		e.run.ForkSites[site]++
+		e.run.mu.Unlock()
+	}
 	alt := append(append([]int(nil), e.trace...), 0)
 	e.enqueue(alt)
 	e.trace = append(e.trace, 1)
@@ -441,6 +452,7 @@ var stubs = map[string]Stub{}
 var execPkgs = map[string]bool{
 	"github.com/couchbaselabs/rosmar": true,
 	"container/list":                  true,
+	"github.com/couchbase/sg-bucket": true,
 	"errors":                          false,
 }
 
@@ -717,7 +729,10 @@ func (e *Exec) evalValue(th *Thread, fr *Frame, in ssa.Value) Val {
 		return e.get(fr, x.X).(*StructV).F[x.Field]
 	case *ssa.IndexAddr:
 		base := e.get(fr, x.X)
-		idx := e.concreteInt(e.get(fr, x.Index), "IndexAddr index")
+		idx := 0
+		if _, isBytes := base.(*BytesV); !isBytes {
+			idx = e.concreteInt(e.get(fr, x.Index), "IndexAddr index")
+		}
 		switch b := base.(type) {
 		case *PtrV: // pointer to array
 			return b.sub(idx)
@@ -727,7 +742,7 @@ func (e *Exec) evalValue(th *Thread, fr *Frame, in ssa.Value) Val {
 			}
 			return &PtrV{c: b.c, path: []int{b.off + idx}}
 		case *BytesV:
-			panic(pathEnd{kind: "unsupported", msg: "IndexAddr on symbolic []byte"})
+			return &NativeV{Kind: "byteptr", Data: []interface{}{b, e.toInt(e.get(fr, x.Index), x.Index.Type())}}
 		}
 		panic(fmt.Sprintf("IndexAddr on %T", base))
 	case *ssa.Index:
@@ -762,7 +777,13 @@ func (e *Exec) evalValue(th *Thread, fr *Frame, in ssa.Value) Val {
 	case *ssa.ChangeInterface:
 		return e.get(fr, x.X)
 	case *ssa.ChangeType:
-		return e.get(fr, x.X)
+		v := e.get(fr, x.X)
+		if fs, ok := sortOf(x.X.Type()); ok {
+			if ts, ok2 := sortOf(x.Type()); ok2 && fs != ts {
+				return e.convert(v, x.X.Type(), x.Type())
+			}
+		}
+		return v
 	case *ssa.Convert:
 		return e.convert(e.get(fr, x.X), x.X.Type(), x.Type())
 	case *ssa.MakeClosure:
@@ -835,6 +856,12 @@ func (e *Exec) unop(th *Thread, fr *Frame, x *ssa.UnOp) Val {
 	v := e.get(fr, x.X)
 	switch x.Op {
 	case token.MUL: // load
+		if nv, ok := v.(*NativeV); ok && nv.Kind == "byteptr" {
+			d := nv.Data.([]interface{})
+			b, idx := d[0].(*BytesV), d[1].(*Term)
+			e.boundsCheck(idx, tStrLen(b.S))
+			return tStrByteAt(b.S, idx)
+		}
 		return v.(*PtrV).load()
 	case token.NOT:
 		return tNot(v.(*Term))
@@ -866,7 +893,7 @@ func (e *Exec) unop(th *Thread, fr *Frame, x *ssa.UnOp) Val {
 func (e *Exec) convert(v Val, from, to types.Type) Val {
 	// string <-> []byte
 	if isByteSlice(to) {
-		if s, ok := v.(*Term); ok && s.S == SStr {
+		if s, ok := v.(*Term); ok && isStrLike(s.S) {
 			return bytesOf(s)
 		}
 		return v
@@ -1033,3 +1060,17 @@ func isErrorIface(t types.Type) bool {
 }
 
 var sentinelType types.Type = types.NewNamed(types.NewTypeName(token.NoPos, nil, "sentinelError", nil), types.NewStruct(nil, nil), nil)
+
+func minInt(a, b int) int {
+	if a < b {
+		return a
+	}
+	return b
+}
+
+func shortFile(f string) string {
+	if i := strings.LastIndex(f, "/"); i >= 0 {
+		return f[i+1:]
+	}
+	return f
+}
